@@ -125,3 +125,48 @@ Theorem C20_class_tables_same_identifier : forall H cs cs' h look,
   forall fuel m, raw_ident H cs h look fuel m = raw_ident H cs' h look fuel m.
 Proof. exact class_table_neutral. Qed.
 Print Assumptions C20_class_tables_same_identifier.
+
+(* ---- the step between the two halves: the identity the repair command recomputes from params.json ---- *)
+From XV Require Import model.Seal model.Serial proofs.Serial_lemmas proofs.Walk_reach_lemmas.
+Close Scope Z_scope.
+
+(* A graph h (root r) was submitted when the classes were cs0: its params.json holds `save cs0 true h fuel r`.
+   The classes are now cs - same declared arguments, other type identifiers (a deprecated class carries the
+   identifier of its replacement).  `recompute` = load_job (the loader of the current code: the meta flag is
+   restored whatever its value, None / True / an explicit False that forces a Meta member into the
+   identifier) followed by the full identifier under cs.  For every graph - flags of the three kinds at any
+   position, shared and cyclic configurations, pre-tasks, init tasks -, every hash function and fuel: if
+   every reference of the file designates a definition (the real loader raises otherwise), the recomputed
+   path is (type identifier of the root's class now, full identifier of the graph under the classes of now):
+   the path a submit of the same graph asks for today.  d_recomp of the workspace model is that value.     *)
+Theorem C20_repair_recomputes_identity : forall H cs0 cs h fuel r f x c d,
+  same_args cs0 cs ->
+  wf_heap h -> fields_nodup h -> (forall c, In c cs -> NoDup (map a_name (c_args c))) ->
+  (forall n, complete_at cs h n) ->
+  resolves (save cs0 true h fuel r) = true ->
+  nth_error h r = Some x -> nth_error cs (n_cls x) = Some c ->
+  full_pure H cs h f r = Ok d ->
+  recompute H cs true f h (save cs0 true h fuel r) r = Some (c_tid c, d).
+Proof. exact recompute_is_identity. Qed.
+Print Assumptions C20_repair_recomputes_identity.
+
+(* ... and the graph written with the replacement classes has that identity: the FULL identifier (the name of
+   the job directory) of every node is unchanged when a node moves to a class with the same type identifier
+   and arguments (C20_deprecated_same_identifier is the statement for the raw identifier)                   *)
+Theorem C20_deprecated_same_full_identifier : forall H cs h n x c c' k',
+  wf_heap h -> nth_error h n = Some x -> nth_error cs (n_cls x) = Some c -> nth_error cs k' = Some c' ->
+  same_sig_class c c' ->
+  forall fuel m d, (m < length h)%nat ->
+    full_pure H cs h fuel m = Ok d -> full_pure H cs (upd_nth h n (with_cls x k')) fuel m = Ok d.
+Proof. exact reclass_full. Qed.
+Print Assumptions C20_deprecated_same_full_identifier.
+
+(* record of a family of defects: a loader that restores the meta flag only when it is truthy loses an explicit
+   False; on OldTask(n=1, aux=setmeta(Aux(x=3), False)) it recomputes another identifier than the loader of the
+   current code, hence than a re-submit (rx_H: the byte stream itself stands for its digest)               *)
+Theorem C20_truthy_meta_loader_refuted :
+  exists a b, recompute rx_H rx_now true 20 rx_heap (save rx_before true rx_heap 20 1) 1 = Some a /\
+              recompute rx_H rx_now false 20 rx_heap (save rx_before true rx_heap 20 1) 1 = Some b /\
+              snd a <> snd b.
+Proof. exact recompute_truthy_refuted. Qed.
+Print Assumptions C20_truthy_meta_loader_refuted.
